@@ -14,7 +14,8 @@ TECHNIQUE = 'bounded-exhaustive enumeration of metric definitions (type x spelli
 RULE = ('single definitions: full product of type{4} x spelling{lower,UPPER} x expression{none,int,float,bool,non-numeric,failing,zero,False,negative} x '
         'labels{none,static,expression,both} x namespace{none,ns} x help/unit{none,text} x processors{1,2} x route{protobuf,MetricDefinition}; '
         'pairs: all ordered pairs over (type, expression); zero processors then one added later; two hits, fire_count=1; '
-        'non-trivial = expression or label expression present, or >1 processor/definition')
+        'non-trivial = expression or label expression present, or >1 processor/definition'
+        ' ; the shipped Prometheus processor (registry after two hits: one / two namespaces / default+named / labels / no help-unit x 4 types) and the shipped OpenTelemetry processor with an SDK meter provider (one / no help-unit / labels x 4 types)')
 ASSUMPTIONS = ['numeric strings and failing label expressions are don\'t-cares', 'unset help/unit may arrive as None or empty text']
 
 PROGRAM = '''
